@@ -279,9 +279,14 @@ class TriangleBoundary(BoundaryDomain):
         points = points[:, list(self.space.keys())].as_tensor
         normals = torch.zeros_like(points, device=device)
         bary_x, bary_y = self.domain._solve_lgs(points - origin, dir_1, -dir_3)
-        normal_dir_1 = self._get_normal_direction(dir_1, device)
-        normal_dir_2 = self._get_normal_direction(dir_2, device)
-        normal_dir_3 = self._get_normal_direction(dir_3, device)
+        # the orientation of the corners (sign of the determinant) decides which side of an
+        # edge is outside
+        orientation = torch.sign(
+            -dir_1[:, :1] * dir_3[:, 1:] + dir_1[:, 1:] * dir_3[:, :1]
+        )
+        normal_dir_1 = orientation * self._get_normal_direction(dir_1, device)
+        normal_dir_2 = orientation * self._get_normal_direction(dir_2, device)
+        normal_dir_3 = orientation * self._get_normal_direction(dir_3, device)
         # compute for each point what the normal vector should be, by checking the
         # value of the local barycentric coordinate = 0 or sum = 1
         self._add_local_normal_vector(normals, bary_x, normal_dir_3, 0.0)
